@@ -63,8 +63,26 @@ FIRST_ARG_PRIMS = {
 SCALAR_MATH = {"prod", "sum", "sqrt", "ceil", "floor", "log", "log2", "exp", "abs", "max", "min", "mean", "round", "power", "sign", "square", "maximum", "minimum", "cumsum"}
 
 
+def R(d):
+    """labels of *real-valued reducers* (norm, abs, real, imag) the value may be nothing but: such a value is
+    real-typed when the input is complex.  Optional 4th component of a datum; absent = empty."""
+    return d[3] if len(d) > 3 else E
+
+
+def with_R(d, r):
+    return (d[0], d[1], d[2], frozenset(r)) if r else (d[0], d[1], d[2])
+
+
+def _real_or_weak(d):
+    return bool(R(d)) or (d[0] == PY and not d[1] and not d[2])
+
+
 def jd(a, b):
-    return (max(a[0], b[0]), a[1] | b[1], a[2] | b[2])
+    return with_R((max(a[0], b[0]), a[1] | b[1], a[2] | b[2]), R(a) | R(b))
+
+
+REAL_PRIMS = {"norm", "real", "imag", "angle", "linalg.norm"}  # not abs: entrywise absolute values are how the non-negative variants (real by nature) sanitise their factors
+FACTORISED = {"CPTensor", "TuckerTensor", "TTTensor", "TRTensor", "TTMatrix", "Parafac2Tensor"}
 
 
 class Taint(Domain):
@@ -75,6 +93,7 @@ class Taint(Domain):
         self.sources_seen = {}
         self.alloc_sites = {"with_context": 0, "without_context": 0}
         self._site_cache = {}
+        self.real_sinks = {}
 
     # lattice
     def bottom(self):
@@ -110,11 +129,16 @@ class Taint(Domain):
         d = BOT
         ops = list(args[:1] if first_only else args) + [v for k, v in kwargs.items() if k in ("a_min", "a_max", "x", "y", "a", "b", "weights")]
         all_py = bool(ops)
+        all_real = bool(ops)
         for a in ops:
             da = it.datum(a)
             if not (da[0] == PY and not da[1] and not da[2]):
                 all_py = False
+            if not _real_or_weak(da):
+                all_real = False
             d = jd(d, da)
+        if not all_real:
+            d = (d[0], d[1], d[2])
         if all_py:
             # only Python numbers went in: the result is a strong 64-bit NumPy scalar
             return (PY, frozenset([self.site(node, it, what)]), E)
@@ -130,7 +154,9 @@ class Taint(Domain):
             strong = a[1] if a[1] else b[1]
             lab = self.site(node, it, "promotion of a strong 64-bit scalar/integer array (" + sorted(strong)[0][:90] + ") combined with an input-typed array")
             W = W | {lab}
-        return (max(a[0], b[0]), S, W)
+        # real-only survives an operation only if no operand can bring the input's (complex) type in
+        r = (R(a) | R(b)) if (_real_or_weak(a) and _real_or_weak(b)) else E
+        return with_R((max(a[0], b[0]), S, W), r)
 
     def binop(self, op, a, b, node, it):
         da, db = it.datum(a), it.datum(b)
@@ -156,7 +182,10 @@ class Taint(Domain):
         if isinstance(base, (Leaf, Sym)):
             if attr in ("shape", "ndim", "size", "dtype"):
                 return Leaf(PYNUM)
-            if attr in ("T", "real", "imag", "flat"):
+            if attr in ("real", "imag"):
+                d0 = it.datum(base)
+                return Leaf(with_R(d0, R(d0) | {self.site(node, it, f"real-valued .{attr} of an array")}))
+            if attr in ("T", "flat"):
                 return base
         return None
 
@@ -294,6 +323,8 @@ class Taint(Domain):
                 d = (UNK, E, d[2])
             if last in ("svd", "qr", "eigh", "lstsq", "solve", "partial_svd", "slogdet"):
                 return Sym(d)
+            if last in REAL_PRIMS and d[0] != PY:
+                d = with_R(d, R(d) | {self.site(node, it, f"real-valued result of {last}(...)")})
             return Leaf(d)
         return None
 
@@ -346,6 +377,15 @@ class Taint(Domain):
         return None
 
     def on_call(self, f: FunctionInfo, call, ct, binding, it):
+        # a factorised-tensor object built from a component that may be nothing but a real-valued reduction
+        if ct.cls is not None and ct.cls.name in FACTORISED:
+            for pname, v in (binding or {}).items():
+                if pname == f.self_name:
+                    continue
+                d = it.datum(v)
+                if R(d):
+                    where = it.stack[-1].f if it.stack else None
+                    self.real_sinks[(where.qname if where is not None else "?", getattr(call, "lineno", 0))] = (where, call, ct.cls.name, sorted(R(d)))
         return None
 
 
@@ -430,6 +470,11 @@ def run(ctx: Ctx):
                         entry=f.qname,
                         source=lab,
                     )
+    res.rule("REAL-NARROWING", "no component handed to a factorised-tensor constructor (CPTensor, TuckerTensor, TTTensor, TRTensor, TTMatrix, Parafac2Tensor) can be nothing but a real-valued reduction (norm / abs / .real / .imag) of the data: it has to be combined with an array that carries the input's type, otherwise complex input yields real-typed weights / factors", floor=1)
+    res.instance("REAL-NARROWING", "factorised-tensor constructions reached from the public entry points", sample={"constructions_with_a_real_only_component": len(dom.real_sinks)})
+    for (fq, line), (where, call, cls_name, labs) in sorted(dom.real_sinks.items()):
+        res.instance("REAL-NARROWING", f"{fq}: {src(call)[:60]}", sample={"class": cls_name, "real_sources": labs[:2], "ok": False})
+        ctx.finding("REAL-NARROWING", where if where is not None else entries[0], call, f"`{src(call)[:80]}` builds a {cls_name} from a component that may be nothing but a real-valued reduction ({labs[0][:120]}): for complex input that component (weights / a factor) is real-typed, so the result does not stay in the numeric context of the data -- multiply it into an array that carries the input's context", construct=f"{cls_name} component is real-only")
     res.stats.update(
         {
             "public_entry_points": len(entries),
